@@ -317,6 +317,10 @@ func handleHotRestart(s *Session, hdr header, buf []byte) (int, bool, error) {
 }
 
 func handleHotRestartAck(s *Session, hdr header, buf []byte) (int, bool, error) {
+	// only a session accepted by a Listener can be sent a hot restart ack
+	if s.listener == nil {
+		return headerSize, false, ErrInvalidMsgType
+	}
 	if len(buf) < epochIDLen {
 		return 0, true, nil
 	}
